@@ -367,6 +367,32 @@ func (vc *VC) load(s *State, t types.Type, obj, off Term) Term {
 			return vc.declare("arrval", srt)
 		}
 		c := vc.tt.cells(u.Elem())
+		if c == 1 && u.Len() >= arrvalMin {
+			// a long scalar array is read as one value: window(inner, off), whose cells are given by
+			// a quantified axiom instead of a chain of N stores.  Equal windows are then equal
+			// by congruence, and cell-level facts are instantiated only where a cell is selected.
+			k := vc.tt.kind(u.Elem())
+			es := kindSort(k)
+			fn := fmt.Sprintf("arrwin_%s_%d", sanitize(k), u.Len())
+			as := ArraySort(SInt, es)
+			if !vc.heapDecl[fn] {
+				vc.heapDecl[fn] = true
+				vc.cmd(fmt.Sprintf("(declare-fun %s (%s Int) %s)", fn, as, as))
+			}
+			h := vc.heap(s, k)
+			w := Term{fmt.Sprintf("(%s %s %s)", fn, Select(h, obj).S, off.S), srt}
+			if !strings.Contains(w.S, "q_") && !vc.heapDecl["ax:"+w.S] {
+				// cell contents of a ground window (quantifying over the array argument itself
+				// sends the solvers into model-based instantiation over array sorts)
+				vc.heapDecl["ax:"+w.S] = true
+				z := vc.tt.zero(u.Elem())
+				vc.nfresh++
+				i := fmt.Sprintf("wi_%d", vc.nfresh)
+				vc.cmd(fmt.Sprintf("(assert (forall ((%s Int)) (! (= (select %s %s) (ite (and (<= 0 %s) (< %s %d)) (select %s (+ %s %s)) %s)) :pattern ((select %s %s)))))",
+					i, w.S, i, i, i, u.Len(), Select(h, obj).S, off.S, i, z.S, w.S, i))
+			}
+			return w
+		}
 		arr := vc.tt.zero(t)
 		for i := int64(0); i < u.Len(); i++ {
 			arr = Store(arr, IntLit(i), vc.load(s, u.Elem(), obj, Add(off, IntLit(i*c))))
